@@ -343,3 +343,88 @@ def thorough(prop: str, mod, ctx, seed: int) -> Dict[str, Any]:
     if bad:
         raise AnalysisError("self-test: " + "; ".join(f"{r['variant']} expected {r['expect']} {r['rule']} got {r['outcome']} ({r.get('detail', '')[:120]})" for r in bad))
     return extra
+
+
+# ----------------------------------------------------------------------------- generic benign rewrites
+
+
+def _rename_all_locals(tree: ast.Module) -> None:
+    """Suffix every function-local (non-parameter) variable with ``_r`` – a behaviour-preserving rewrite."""
+
+    def process(fn: ast.AST) -> None:
+        params = set()
+        for n in ast.walk(fn):
+            if isinstance(n, ast.arg):
+                params.add(n.arg)
+        declared = set()
+        for n in ast.walk(fn):
+            if isinstance(n, (ast.Global, ast.Nonlocal)):
+                declared |= set(n.names)
+        stores = set()
+        for n in ast.walk(fn):
+            if isinstance(n, ast.Name) and isinstance(n.ctx, (ast.Store, ast.Del)):
+                stores.add(n.id)
+        nested_defs = {n.name for n in ast.walk(fn) if isinstance(n, (ast.FunctionDef, ast.ClassDef)) and n is not fn}
+        targets = {s for s in stores if s not in params and s not in declared and s not in nested_defs and not s.startswith("__") and s != "_"}
+        for n in ast.walk(fn):
+            if isinstance(n, ast.Name) and n.id in targets:
+                n.id = n.id + "_r"
+
+    for node in tree.body:
+        if isinstance(node, ast.FunctionDef):
+            process(node)
+        elif isinstance(node, ast.ClassDef):
+            for sub in node.body:
+                if isinstance(sub, ast.FunctionDef):
+                    process(sub)
+
+
+def _reorder_methods(tree: ast.Module) -> None:
+    """Move every method definition of every class to the end of the class body in reverse order
+    (class-level assignments keep their relative order and stay before their uses)."""
+    for node in tree.body:
+        if isinstance(node, ast.ClassDef):
+            defs = [s for s in node.body if isinstance(s, ast.FunctionDef)]
+            names_used_by_assigns = set()
+            for s in node.body:
+                if not isinstance(s, ast.FunctionDef):
+                    for n in ast.walk(s):
+                        if isinstance(n, ast.Name):
+                            names_used_by_assigns.add(n.id)
+            if any(d.name in names_used_by_assigns for d in defs):
+                # aliases like ``flip_horizontal = complement`` need their target defined first: keep
+                # such classes in source order but still rotate the methods not referenced by assignments
+                movable = [d for d in defs if d.name not in names_used_by_assigns]
+            else:
+                movable = defs
+            rest = [s for s in node.body if s not in movable]
+            node.body = rest + list(reversed(movable))
+
+
+def _add_unrelated_code(tree: ast.Module) -> None:
+    extra = ast.parse("def _unrelated_helper_for_selftest(value):\n    \"\"\"Does nothing of interest.\"\"\"\n    result = [value]\n    result.append(value)\n    return len(result)\n").body
+    tree.body.extend(extra)
+    for node in tree.body:
+        if isinstance(node, ast.ClassDef):
+            node.body.extend(ast.parse("def _unrelated_method_for_selftest(self):\n    return None\n").body)
+
+
+def _add_logging(tree: ast.Module) -> None:
+    """``logger.debug(..)`` as first statement of every function, and inside every loop body."""
+    tree.body.insert(0, ast.parse("import logging").body[0])
+    tree.body.insert(1, ast.parse("logger = logging.getLogger(__name__)").body[0])
+    for node in ast.walk(tree):
+        if isinstance(node, ast.FunctionDef):
+            pos = 1 if node.body and isinstance(node.body[0], ast.Expr) and isinstance(node.body[0].value, ast.Constant) else 0
+            node.body.insert(pos, ast.parse(f"logger.debug('enter {node.name}')").body[0])
+
+
+def generic_silent(files: List[str]) -> List[Variant]:
+    out = []
+    for f in files:
+        short = f.split("/")[-1][:-3]
+        out.append(Variant(f"generic-rename-locals-{short}", [(f, _rename_all_locals)], "silent", note="every function-local variable renamed"))
+        out.append(Variant(f"generic-reorder-methods-{short}", [(f, _reorder_methods)], "silent", note="methods reordered inside their classes"))
+        out.append(Variant(f"generic-unrelated-code-{short}", [(f, _add_unrelated_code)], "silent", note="an unrelated function and method added"))
+        out.append(Variant(f"generic-logging-{short}", [(f, _add_logging)], "silent", note="a logger.debug call added at the start of every function"))
+    return out
